@@ -54,7 +54,32 @@ AWAIT = '''{ind}    elif _op == "await":
 '''
 
 
+AGEN_BODY = '''{ind}while True:
+{ind}    _op, _val = S.next()
+{ind}    if _op == "do":
+{ind}        S.do(_val)
+{ind}    elif _op == "do_catch":
+{ind}        try:
+{ind}            S.do(_val)
+{ind}        except S_Boom:
+{ind}            S.caught()
+{ind}    elif _op == "raise":
+{ind}        raise S_Boom()
+{ind}    elif _op == "ret_implicit":
+{ind}        break
+{ind}    elif _op == "rebind":
+{ind}        {p} = _val
+{ind}    elif _op == "yield":
+{ind}        yield _val
+{ind}    elif _op == "await":
+{ind}        await Suspender()
+'''
+
+
 def func(name, params, kind="plain", ind="", deco=None, rebind="a", pre=None):
+    if kind == "agen":       # an async generator both yields and awaits, and cannot return a value
+        head = "%sasync def %s(%s):\n" % (ind, name, params)
+        return head + AGEN_BODY.format(ind=ind + "    ", p=rebind) + "\n"
     extra = {"plain": "", "gen": YIELD, "coro": AWAIT}[kind].format(ind=ind + "    ")
     head = ""
     if deco:
@@ -75,6 +100,7 @@ def traced_source():
     s += func("f_wrapped", "a, b=1", deco="S_deco")
     s += func("g_mod", "a, b=0", kind="gen")
     s += func("c_mod", "a", kind="coro")
+    s += func("ag_mod", "a, b=0", kind="agen")
     # a generator-based coroutine (types.coroutine only sets CO_ITERABLE_COROUTINE): its yields ARE yields
     s += func("g_typescoro", "a", kind="gen", deco="S_types.coroutine")
     s += "class Kls:\n"
@@ -85,6 +111,7 @@ def traced_source():
     s += func("prop", "self", ind="    ", deco="property", rebind="_unused")
     s += func("g_meth", "self, a", ind="    ", kind="gen")
     s += func("c_meth", "self, a", ind="    ", kind="coro")
+    s += func("ag_meth", "self, a", ind="    ", kind="agen")
     s += "\nclass Sub(Kls):\n"
     s += func("m_over", "self, a", ind="    ")
     s += "\n"
@@ -140,6 +167,10 @@ TARGETS = {
     "C": [
         dict(name="c_mod", maker="lambda: M.c_mod", sig="M.c_mod", selfargs="[]"),
         dict(name="Kls.c_meth", maker="lambda: OBJ.c_meth", sig="M.Kls.c_meth", selfargs="[OBJ]"),
+    ],
+    "A": [
+        dict(name="ag_mod", maker="lambda: M.ag_mod", sig="M.ag_mod", selfargs="[]"),
+        dict(name="Kls.ag_meth", maker="lambda: OBJ.ag_meth", sig="M.Kls.ag_meth", selfargs="[OBJ]"),
     ],
     "U": [
         dict(name="u_filtered", maker="lambda: MU.u_filtered", sig="MU.u_filtered", selfargs="[]"),
